@@ -195,6 +195,28 @@ def check_props_file(prop: str):
                 output=(out + err)[-4000:], n_answers=len(answers))
 
 
+def run_coqchk(prop: str, timeout=2400):
+    """thorough tier: re-check the property's compiled theorem file and everything it depends on
+    with the independent checker coqchk, and collect the axioms it reports (-o).
+    Returns dict(ok, axioms=[...], type_in_type, unsafe_fix, assumed_positive, seconds, output)."""
+    t0 = time.time()
+    p = subprocess.run(["timeout", str(timeout), "coqchk", "-silent", "-Q", str(COQ), "CG", "-o", f"CG.Props.{prop}"],
+                       cwd=COQ, capture_output=True, text=True)
+    out = p.stdout + p.stderr
+
+    def section(title):
+        m = re.search(r"\* " + re.escape(title) + r":(.*?)(?=\n\* |\Z)", out, re.S)
+        if not m:
+            return None
+        body = m.group(1).strip()
+        return [] if body == "<none>" else [l.strip() for l in body.splitlines() if l.strip()]
+    return dict(ok=(p.returncode == 0), axioms=section("Axioms"),
+                type_in_type=section("Constants/Inductives relying on type-in-type"),
+                unsafe_fix=section("Constants/Inductives relying on unsafe (co)fixpoints"),
+                assumed_positive=section("Inductives whose positivity is assumed"),
+                seconds=round(time.time() - t0, 1), output=out[-1500:])
+
+
 FORBIDDEN = re.compile(r"\b(Admitted|admit|Axiom|Parameter|Conjecture|Unset Guard|bypass_check|"
                        r"type-in-type|impredicative-set|Admit Obligations)\b")
 
